@@ -310,3 +310,112 @@ def rule_winalias_live(ctx, prop: str) -> RuleResult:
             )
     res.floor = 4
     return res
+
+
+def rule_aliasclosed(ctx, prop: str) -> RuleResult:
+    """Every analysis that keeps a window-alias map must be closed under *chains* of
+    windows (w2 = w1[..], w1 = a[..]): either the map stores already-resolved roots, or
+    every lookup iterates to a fixpoint."""
+    ix, adts = ctx.ix, ctx.adts
+    res = RuleResult("ALIASCLOSED")
+    from ..dispatch import find_chains
+
+    n_sites = 0
+    for f in ix.all_funcs():
+        if not f.file.startswith(("src/exo/rewrite/", "src/exo/core/", "src/exo/backend/", "src/exo/frontend/")) or not isinstance(f.node, ast.FunctionDef):
+            continue
+        for ch in find_chains(f, adts):
+            for case in ch.cases:
+                if ("LoopIR", "WindowStmt") not in case.ctors:
+                    continue
+                subj = ch.subject
+                for st in case.body:
+                    for n in ast.walk(st):
+                        if not (isinstance(n, ast.Assign) and isinstance(n.targets[0], ast.Subscript)):
+                            continue
+                        tg = n.targets[0]
+                        key = ast.unparse(tg.slice)
+                        dmap = dotted(tg.value)
+                        if dmap is None or dmap.endswith(("mem_env", "env", "bbuf_types", "buf_unknowns", "live_vars")):
+                            continue
+                        # key must be the window's own name (possibly through a local)
+                        if not (key == f"{subj}.name" or _local_is(case.body, key, f"{subj}.name")):
+                            continue
+                        n_sites += 1
+                        res.instances += 1
+                        res.nontrivial += 1
+                        res.analysed.append(f"{f.file}:{f.qualname}")
+                        v = n.value
+                        resolved = _resolved_value(v, dmap, case.body, f, ix)
+                        iterative = _lookups_iterative(f, dmap, ix)
+                        ok = resolved or iterative
+                        res.ob(ok)
+                        res.sample(f"{f.qualname}: `{ast.unparse(n)}` — stores resolved root: {resolved}; lookups iterate: {iterative}")
+                        if not ok:
+                            res.add(
+                                Finding("ALIASCLOSED", f.file, n.lineno, f.qualname, f"{dmap}[window]",
+                                        f"`{ast.unparse(n)}` records a window as alias of the *name* it was taken from and lookups of `{dmap}` do a single step: for a window of a window "
+                                        f"the analysis attributes accesses to the intermediate window, not to the buffer (aliasing between arguments, liveness, written-set are then wrong)")
+                            )
+    if n_sites < 5:
+        raise AnalysisError(f"ALIASCLOSED: expected >= 5 alias-map stores in WindowStmt cases, found {n_sites}")
+    res.floor = 5
+    return res
+
+
+def _local_is(body, name: str, expr_txt: str) -> bool:
+    for st in body:
+        for n in ast.walk(st):
+            if isinstance(n, ast.Assign):
+                tg, v = n.targets[0], n.value
+                if isinstance(tg, ast.Name) and tg.id == name and ast.unparse(v) == expr_txt:
+                    return True
+                if isinstance(tg, ast.Tuple) and isinstance(v, ast.Tuple):
+                    for t, x in zip(tg.elts, v.elts):
+                        if isinstance(t, ast.Name) and t.id == name and ast.unparse(x) == expr_txt:
+                            return True
+    return False
+
+
+def _resolved_value(v: ast.AST, dmap: str, body, f: Func, ix) -> bool:
+    # D.get(x, x) / D[x] / self.resolver(x)
+    if isinstance(v, ast.Call) and isinstance(v.func, ast.Attribute):
+        if v.func.attr == "get" and dotted(v.func.value) == dmap:
+            return True
+        if isinstance(v.func.value, ast.Name) and v.func.value.id == "self":
+            # a resolver method that consults the same map
+            c = f.module.classes.get(f.cls) if f.cls else None
+            g = ix.resolve_method(c, v.func.attr) if c else None
+            if g is not None and any(dotted(x) == dmap for x in g.all_nodes() if isinstance(x, ast.Attribute)):
+                return True
+    if isinstance(v, ast.Name):
+        # local resolved by `while x in D: x = D[x]` or assigned from D.get(..)
+        for st in body:
+            for n in ast.walk(st):
+                if isinstance(n, ast.While) and isinstance(n.test, ast.Compare) and isinstance(n.test.ops[0], ast.In) and dotted(n.test.left) == v.id and dotted(n.test.comparators[0]) == dmap:
+                    return True
+                if isinstance(n, ast.Assign) and isinstance(n.targets[0], ast.Name) and n.targets[0].id == v.id and isinstance(n.value, ast.Call) and isinstance(n.value.func, ast.Attribute) and n.value.func.attr == "get" and dotted(n.value.func.value) == dmap:
+                    return True
+    return False
+
+
+def _lookups_iterative(f: Func, dmap: str, ix) -> bool:
+    """All lookups of the map (in the enclosing class / function family) happen in
+    `while x in D:` loops."""
+    scope: List[Func] = []
+    if f.cls and f.cls in f.module.classes:
+        scope = list(f.module.classes[f.cls].methods.values())
+    else:
+        root = f
+        while root.outer is not None:
+            root = root.outer
+        scope = [g for g in f.module.funcs.values() if g is root or g.qualname.startswith(root.qualname + ".")]
+    base = dmap.split(".")[-1]
+    n_loop = n_other = 0
+    for g in scope:
+        for n in g.all_nodes():
+            if isinstance(n, ast.While) and isinstance(n.test, ast.Compare) and isinstance(n.test.ops[0], ast.In) and (dotted(n.test.comparators[0]) or "").split(".")[-1] == base:
+                n_loop += 1
+            if isinstance(n, ast.Call) and isinstance(n.func, ast.Attribute) and n.func.attr == "get" and (dotted(n.func.value) or "").split(".")[-1] == base:
+                n_other += 1
+    return n_loop > 0 and n_other == 0
